@@ -265,7 +265,7 @@ class Class(metaclass=mixin.MixinMeta):  # pylint: disable=undefined-variable
         "typing."
     ):
       protocol_attributes = set()
-      if self.pytd_cls.name == "typing.Mapping":
+      if self.pytd_cls.name in ("typing.Mapping", "typing.MutableMapping"):
         # Append Mapping-specific attributes to forbid matching against classes
         # that satisfy the Mapping ABC but don't contain mapping_attrs.
         mapping_attrs = {
